@@ -38,7 +38,7 @@ type StrTag struct {
 	isFloat bool
 	fmtC    byte
 	prec    int
-	precT   *Term // symbolic precision (prec == -2)
+	precT   *Term   // symbolic precision (prec == -2)
 	mat     []Value // materialised cells (per path)
 }
 
@@ -84,8 +84,11 @@ type Chan struct {
 	closed bool
 	id     int
 
-	taken       int // tier B: number of values received so far
-	recvWaiting int // tier B: goroutines waiting to receive (rendezvous of unbuffered channels)
+	vcs         []vclock // tier B race monitor: clock attached to each buffered value
+	recvVCs     []vclock // tier B race monitor: clock of each receiver, in order (capacity edge of buffered channels)
+	sent        int      // tier B race monitor: number of sends so far
+	taken       int      // tier B: number of values received so far
+	recvWaiting int      // tier B: goroutines waiting to receive (rendezvous of unbuffered channels)
 }
 
 type intKind struct {
